@@ -79,6 +79,11 @@ class SettingsUnit(object):
 
     # ------------------------------------------------------------------ ast skeleton
     def skeleton(self):
+        """Facts read from the FLATTENED, NORMALISED closure of validate() (translator/c19_astnorm.py), so that
+        extracting/merging helper methods, renaming locals, De Morgan rewrites and reworded messages do not change
+        them: the copy phase (other.X = self.X, in order), every in-place list mutation, every re-binding of
+        other.X to a new object, and a digest of the whole normal form."""
+        import c19_astnorm
         with open(self.path) as f:
             src = f.read()
         tree = ast.parse(src)
@@ -86,60 +91,78 @@ class SettingsUnit(object):
         if not cls:
             raise Refuse('class HandshakeSettings not found')
         funs = {n.name: n for n in cls[0].body if isinstance(n, ast.FunctionDef)}
-        for fn in CHECK_FUNS + ['__init__', '_init_key_settings', '_init_misc_extensions']:
+        for fn in ['validate', '__init__']:
             if fn not in funs:
                 raise Refuse('method %s not found' % fn)
-        extra = sorted(n for n in funs if n.startswith(('_sanity', '_copy', '_remove', '_not_')) and n not in CHECK_FUNS)
-        if extra:
-            raise Refuse('unmodelled helper methods appeared: %s' % extra)
-        copies = []
-        for fn in COPY_FUNS:
-            for st in funs[fn].body:
-                if isinstance(st, ast.Expr) and isinstance(st.value, ast.Constant):
-                    continue        # docstring
-                copies.append((fn,) + self.copy_stmt(st, fn))
-        vseq = []
-        for st in funs['validate'].body:
-            if isinstance(st, ast.Expr) and isinstance(st.value, ast.Constant):
-                continue
-            vseq.append(self.validate_stmt(st))
-        muts = []
-        for fn in CHECK_FUNS:
-            for node in ast.walk(funs[fn]):
+        try:
+            norm = c19_astnorm.Normaliser(cls[0])
+            flat = c19_astnorm.inline_single_assignments(norm.flatten('validate'))
+            text = c19_astnorm.closure_text(cls[0])
+        except RecursionError as e:
+            raise Refuse('validate() closure cannot be flattened: %s' % e)
+        # methods still referenced by name from the closure (not inlined: they return a value through several
+        # statements) and the validate() of the helper classes are part of the digest as well
+        extra = []
+        for n in ast.walk(ast.parse(text)):
+            if isinstance(n, ast.Attribute) and isinstance(n.value, ast.Name) and n.value.id in ('self', 'HandshakeSettings') \
+                    and n.attr in funs and n.attr not in extra and n.attr != 'validate':
+                extra.append(n.attr)
+        for fn in extra:
+            text += '\n# ' + fn + '\n' + c19_astnorm.closure_text(cls[0], fn)
+        for other_cls in ('VirtualHost', 'Keypair'):
+            oc = [n for n in tree.body if isinstance(n, ast.ClassDef) and n.name == other_cls]
+            if oc and any(isinstance(n, ast.FunctionDef) and n.name == 'validate' for n in oc[0].body):
+                text += '\n# %s.validate\n' % other_cls + c19_astnorm.closure_text(oc[0])
+        closure_digest = hashlib.sha256(text.encode()).hexdigest()[:16]
+        copies, muts, rebinds = [], [], []
+        for st in flat:
+            for node in ast.walk(st):
                 d = self.mutation_site(node)
                 if d:
-                    muts.append((fn, d))
-        # attributes of `other` that are re-bound to a NEW object outside the copy phase
-        rebinds = []
-        for fn in CHECK_FUNS:
-            if fn in COPY_FUNS:
-                continue
-            for node in ast.walk(funs[fn]):
+                    muts.append(d)
                 if isinstance(node, ast.Assign):
                     for t in node.targets:
                         if isinstance(t, ast.Attribute) and isinstance(t.value, ast.Name) and t.value.id == 'other':
-                            v = node.value
-                            if fn == 'validate' and isinstance(v, ast.Attribute) and isinstance(v.value, ast.Name) \
-                                    and v.value.id == 'self':
-                                continue    # alias of the copy phase, already in gen_validate_seq
-                            rebinds.append((fn, '%s:%s' % (t.attr, type(v).__name__)))
+                            c = self.copy_kind(t, node.value)
+                            if c:
+                                copies.append(c)
+                            else:
+                                rebinds.append('%s:%s' % (t.attr, type(node.value).__name__))
         inits = []
-        for fn in ('_init_key_settings', '_init_misc_extensions', '__init__'):
-            for node in ast.walk(funs[fn]):
+        init_norm = c19_astnorm.Normaliser(cls[0]).flatten('__init__')
+        for st in init_norm:
+            for node in ast.walk(st):
                 if isinstance(node, (ast.Assign, ast.AugAssign)):
                     tg = node.targets if isinstance(node, ast.Assign) else [node.target]
                     for t in tg:
                         if isinstance(t, ast.Attribute) and isinstance(t.value, ast.Name) and t.value.id == 'self' \
                                 and t.attr not in inits:
                             inits.append(t.attr)
+        # per-method digests: hints for locating a drift, not part of the tie
         digests = []
-        for fn in CHECK_FUNS:
-            node = funs[fn]
-            body = [s for s in node.body if not (isinstance(s, ast.Expr) and isinstance(s.value, ast.Constant)
-                                                 and isinstance(s.value.value, str))]
-            dump = ast.dump(ast.Module(body=body, type_ignores=[]), annotate_fields=False)
-            digests.append((fn, hashlib.sha256(dump.encode()).hexdigest()[:16]))
-        return copies, vseq, muts, inits, digests, rebinds
+        for fn in sorted(funs):
+            if fn.startswith('_') and not fn.startswith('__') or fn == 'validate':
+                node = funs[fn]
+                body = [x for x in node.body if not (isinstance(x, ast.Expr) and isinstance(x.value, ast.Constant)
+                                                     and isinstance(x.value.value, str))]
+                dump = ast.dump(ast.Module(body=body, type_ignores=[]), annotate_fields=False)
+                digests.append((fn, hashlib.sha256(dump.encode()).hexdigest()[:16]))
+        return copies, muts, inits, digests, rebinds, closure_digest, text
+
+    @staticmethod
+    def copy_kind(t, v):
+        """other.X = self.X -> ('alias', X); list(self.X) / self.X[:] -> ('copy', X); anything else -> None"""
+        def self_attr(e):
+            return isinstance(e, ast.Attribute) and isinstance(e.value, ast.Name) and e.value.id == 'self'
+        if self_attr(v) and v.attr == t.attr:
+            return ('alias', t.attr)
+        if isinstance(v, ast.Call) and isinstance(v.func, ast.Name) and v.func.id == 'list' \
+                and len(v.args) == 1 and self_attr(v.args[0]) and v.args[0].attr == t.attr:
+            return ('copy', t.attr)
+        if isinstance(v, ast.Subscript) and self_attr(v.value) and isinstance(v.slice, ast.Slice) \
+                and v.slice.lower is None and v.slice.upper is None and v.slice.step is None and v.value.attr == t.attr:
+            return ('copy', t.attr)
+        return None
 
     @staticmethod
     def copy_stmt(st, fn):
@@ -247,7 +270,7 @@ class SettingsUnit(object):
         cm = import_repo('tlslite.utils.cryptomath')
         cf = import_repo('tlslite.utils.cipherfactory')
         compat = import_repo('tlslite.utils.compat')
-        copies, vseq, muts, inits, digests, rebinds = self.skeleton()
+        copies, muts, inits, digests, rebinds, closure_digest, closure_text = self.skeleton()
         out = ['(* GENERATED by translator/units_settings.py from %s -- do not edit *)' % 'tlslite/handshakesettings.py',
                'From Coq Require Import ZArith List Bool String.',
                'Import ListNotations.', 'Open Scope Z_scope.', 'Open Scope string_scope.', '']
@@ -301,13 +324,11 @@ class SettingsUnit(object):
                 raise Refuse('default of %s has an unmodelled type: %r' % (a, v))
         out.append('')
         out.append('(* structure of the copy phase and of validate(), read from the ast *)')
-        out.append('Definition gen_copies : list (string * string * string) := [\n  %s].'
-                   % ';\n  '.join('(%s, %s, %s)' % (sl(a), sl(b), sl(c)) for a, b, c in copies))
-        out.append('Definition gen_validate_seq : list string := [\n  %s].' % ';\n  '.join(sl(x) for x in vseq))
-        out.append('Definition gen_mutation_sites : list (string * string) := [\n  %s].'
-                   % ';\n  '.join('(%s, %s)' % (sl(a), sl(b)) for a, b in muts))
-        out.append('Definition gen_rebinds : list (string * string) := [\n  %s].'
-                   % ';\n  '.join('(%s, %s)' % (sl(a), sl(b)) for a, b in rebinds))
+        out.append('Definition gen_copies : list (string * string) := [\n  %s].'
+                   % ';\n  '.join('(%s, %s)' % (sl(a), sl(b)) for a, b in copies))
+        out.append('Definition gen_mutation_sites : list string := [\n  %s].' % ';\n  '.join(sl(a) for a in muts))
+        out.append('Definition gen_rebinds : list string := [\n  %s].' % ';\n  '.join(sl(a) for a in rebinds))
+        out.append('Definition gen_closure_digest : string := %s.' % sl(closure_digest))
         out.append('Definition gen_init_attrs : list string := %s.' % strlist(inits))
         out.append('Definition gen_digests : list (string * string) := [\n  %s].'
                    % ';\n  '.join('(%s, %s)' % (sl(a), sl(b)) for a, b in digests))
